@@ -186,24 +186,48 @@ pub fn run(sp: &Spawn) -> ProcOut {
 			}
 		}));
 	}
+	// read stdout (pipe or pty master) and stderr concurrently with poll(2): either may be large
 	let mut stdout = vec![];
-	if let Some(mut p) = child.stdout.take() {
-		let _ = p.read_to_end(&mut stdout);
-	}
-	if let Some(m) = pty_master {
-		let mut f = File::from(m);
-		let mut buf = [0u8; 4096];
-		loop {
-			match f.read(&mut buf) {
-				Ok(0) | Err(_) => break,
-				Ok(n) => stdout.extend_from_slice(&buf[..n]),
+	let mut stderr = vec![];
+	{
+		let out_file: Option<File> = child.stdout.take().map(|p| File::from(OwnedFd::from(p))).or_else(|| pty_master.map(File::from));
+		let err_file: Option<File> = child.stderr.take().map(|p| File::from(OwnedFd::from(p)));
+		let mut srcs: Vec<(File, bool)> = vec![];
+		if let Some(f) = out_file {
+			srcs.push((f, true));
+		}
+		if let Some(f) = err_file {
+			srcs.push((f, false));
+		}
+		let mut buf = vec![0u8; 65536];
+		while !srcs.is_empty() {
+			let mut pfds: Vec<libc::pollfd> = srcs.iter().map(|(f, _)| libc::pollfd { fd: f.as_raw_fd(), events: libc::POLLIN, revents: 0 }).collect();
+			// SAFETY: valid array of pollfd for the descriptors we own.
+			let r = unsafe { libc::poll(pfds.as_mut_ptr(), pfds.len() as libc::nfds_t, 1000) };
+			if r < 0 {
+				continue;
+			}
+			let mut i = 0;
+			while i < srcs.len() {
+				if pfds[i].revents != 0 {
+					match srcs[i].0.read(&mut buf) {
+						Ok(0) | Err(_) => {
+							srcs.remove(i);
+							pfds.remove(i);
+							continue;
+						}
+						Ok(n) => {
+							let dst = if srcs[i].1 { &mut stdout } else { &mut stderr };
+							// bound what is kept: nothing legitimate is larger than this
+							if dst.len() < (256 << 20) {
+								dst.extend_from_slice(&buf[..n]);
+							}
+						}
+					}
+				}
+				i += 1;
 			}
 		}
-	}
-	// xt's stderr output is a few lines at most, so reading it after stdout cannot deadlock
-	let mut stderr = vec![];
-	if let Some(mut p) = child.stderr.take() {
-		let _ = p.read_to_end(&mut stderr);
 	}
 	let st = child.wait().expect("MACHINERY: wait");
 	let timed_out = watchdog_unregister(pid);
